@@ -1,5 +1,4 @@
 import Irismod.Props.C12_Random
-import Irismod.Proofs.RandomMonitor
 open Irismod Irismod.Random Irismod.Props.C12Random
 #print axioms genWF_of_queueInv
 #print axioms rnd_every_request_exported
@@ -15,5 +14,3 @@ open Irismod Irismod.Random Irismod.Props.C12Random
 #print axioms rnd_roundtrip_reachable
 -- non-vacuity: a queue with three requests due at one height and one at another exports as two groups of 3 and 1, re-imports to the same four entries, and restarts at zero height with heights 1 and 4
 #eval s!"nonvacuous {demoNonvacuous}"
-#print axioms Irismod.Proofs.RandomMonitor.monitor_sound
-#print axioms Irismod.Proofs.RandomMonitor.line_inv
